@@ -163,6 +163,11 @@ void ezc3d::c3d::readFile(unsigned int nByteToRead, char * c, int nByteFromPrevi
     if (pos != 1)
         this->seekg (nByteFromPrevious, pos); // Move to number analogs
     this->read (c, nByteToRead);
+    // A short or failed read leaves the rest of the buffer untouched: clear it, so that
+    // what is decoded afterwards never depends on stale memory
+    std::streamsize nRead(this->gcount());
+    for (unsigned int i = nRead < 0 ? 0 : static_cast<unsigned int>(nRead); i < nByteToRead; ++i)
+        c[i] = '\0';
 #ifdef MELUND_EZC3D_VERIF
     MELUND_EZC3D_VERIF_HOOK(1, nByteToRead, this->fail() ? 1 : 0);
 #endif
